@@ -281,8 +281,11 @@ package proxy
 //@   props C11 C12
 //@ func (*Proxy).playerByName
 //@   props C11 C12
+// The player count is the number of registered UUIDs (not of names: in kick mode two UUIDs can share a name entry).
 //@ func (*Proxy).PlayerCount
 //@   props C11 C12
+//@   at-call len:playerIDs as n: assert [counts-the-registered-uuids] held(p.muP) != none
+//@   ensures [count-is-the-number-of-registered-uuids] called(n)
 //@ func (*connectedPlayer).teardown
 //@   props C11
 //@   at-call unregisterConnection as unreg: assert [tears-down-itself] arg1 == p
